@@ -14,6 +14,7 @@ fn main() {
       println!("{}", serde_json::json!({"lang": util::lang_name(l), "n": p.nodes}));
     }
     "drive" => drive(&args[2..]),
+    "c12-apply" => c12::apply_child(&args[2]),
     "universe" => {
       // agv universe --mode carrier|corpus|both [--corpus d] [--seed n] [--tier t] --out f
       let a = &args[2..];
@@ -55,6 +56,7 @@ fn drive(args: &[String]) {
     "c16" => c16::drive(corpus, seed, out, thorough),
     "c17" => c17::drive(seed, out, thorough),
     "c18" => c18::drive(vectors, seed, out, thorough),
+    "c12" => c12::drive(vectors.expect("--vectors"), out),
     "rules" => rules::drive(opt(args, "--universe").expect("--universe"), vectors.expect("--vectors"), out),
     "c20" => c20::drive(vectors.expect("--vectors"), out),
     _ => {
